@@ -114,12 +114,12 @@ inductive Err
   | noExportedFields       -- errNoExportedFields
 deriving Repr, DecidableEq, Inhabited
 
-/-- `jsonwire.NeedEscape` restricted to what a name can need: only its ASCII arm is modelled exactly
-(`escapeASCII[c] > 0` ⇔ control, `"`, `\`); any byte ≥ 0x80 is answered `true`, which over-approximates
-(valid non-ASCII other than U+2028/2029 needs no escape).  It only feeds the "other options than
-`embed`" ERROR test, never the resolution. -/
+/-- `jsonwire.NeedEscape(name)`: an ASCII byte with `escapeASCII[c] > 0` (control, `"`, `&`, `<`, `>`, `\\`),
+or a rune that decodes to U+FFFD (ill-formed UTF-8 included), U+2028 or U+2029.
+It only feeds the "other options than `embed`" ERROR test, never the resolution. -/
 def needEscape (b : Bytes) : Bool :=
-  b.any (fun c => c.toNat < 0x20 || c.toNat == 0x22 || c.toNat == 0x5C || c.toNat ≥ 0x80)
+  (Fold.runes b).any (fun r => r < 0x20 || r == 0x22 || r == 0x26 || r == 0x3C || r == 0x3E || r == 0x5C ||
+    r == 0xFFFD || r == 0x2028 || r == 0x2029)
 
 /-- Observable result of `parseFieldOptions(sf)`: (options, ignored, error). -/
 def parseOpts (d : FieldDecl) : FieldOpts × Bool × Option Err :=
